@@ -39,6 +39,8 @@ VARIANTS = {
     'tsan': ('gcc', ['-O1', '-g', '-fno-omit-frame-pointer', '-DCARQUET_VERIF', '-fsanitize=thread'], ['-fsanitize=thread']),
     'plain': ('gcc', ['-O2', '-g', '-DCARQUET_VERIF'], []),
     'nohook': ('gcc', ['-O2', '-g'], []),
+    # as plain, but the AVX-512 kernels are compiled with -mavx512vbmi as a user of -march=native on a VBMI CPU would get them (C15)
+    'plainvbmi': ('gcc', ['-O2', '-g', '-DCARQUET_VERIF'], []),
     'cov': ('gcc', ['-O0', '-g', '-DCARQUET_VERIF', '--coverage'], ['--coverage']),
     # clang + libFuzzer instrumentation (input generator for C04/C08 thorough stages); no OpenMP: the target is single-threaded
     # ASan only: clang's UBSan flags NULL+0 pointer arithmetic that is never dereferenced; UB classes are judged by the gcc replay
@@ -126,7 +128,7 @@ def build_lib(variant):
 
         def comp(src):
             obj = os.path.join(tmp, src.replace('/', '_')[:-2] + '.o')
-            cmd = [cc] + cflags + [d for d in COMMON_DEFS if not (variant == 'fuzz' and d == '-fopenmp')] + PER_FILE.get(src, []) + \
+            cmd = [cc] + cflags + [d for d in COMMON_DEFS if not (variant == 'fuzz' and d == '-fopenmp')] + PER_FILE.get(src, []) + (['-mavx512vbmi'] if variant == 'plainvbmi' and src.endswith('avx512_ops.c') else []) + \
                   ['-I', os.path.join(REPO, 'include'), '-I', os.path.join(REPO, 'src'),
                    '-c', os.path.join(REPO, src), '-o', obj]
             r = subprocess.run(cmd, capture_output=True, text=True)
